@@ -4,6 +4,7 @@
 import Rox.Spec.Tree
 import Rox.Parse
 import Rox.Lemmas.DocSpans
+import Rox.Lemmas.RangeOrd
 import Rox.Props.C01
 
 namespace Rox.Props.C13
@@ -55,17 +56,25 @@ theorem attr_subranges_total (d : Doc) (k : Nat) (a : AttrData) (h : attrAt d k 
   have : (a.range.2 == 0) = false := by simp; omega
   simp [this]
 
-/-- **Both ends of every stored range are valid slice bounds** (all valid UTF-8 inputs, all
-options): for every node and attribute of every parsed document — nodes created inside an entity
-expansion included — `range.start` and `range.end` are at most the input length and lie on
-character boundaries. (`_partial`: together with `start ≤ end` this is the validity clause of the
-property; the ordering `start ≤ end` is not proved here for all inputs — it is decided by the
-executable form `rangesValidB` on the implementation's data, see `rangesValidB_iff`.) -/
-theorem parsed_range_ends_valid_partial (txt : Bytes) (hv : ValidUtf8 txt) (opt : Opt) (d : Doc)
-    (h : parse Generated.tables txt opt = .ok d) :
-    (∀ (i : Nat) (n : NodeData), d.nodes[i]? = some n → Rox.Lemmas.EndsOk txt n.range) ∧
-    (∀ (k : Nat) (a : AttrData), d.attrs[k]? = some a → Rox.Lemmas.EndsOk txt a.range) := by
+/-- **Every stored range is valid** (all valid UTF-8 inputs, all options; nodes created inside an
+entity expansion included): for every node and every attribute of every parsed document
+`start ≤ end ≤ input length` and both ends are character boundaries — so slicing the input with any
+range the API hands out cannot fail — and consequently the executable form `rangesValidB`
+evaluates to `true` on every parsed document. (That an element's range starts at its `<` and ends
+at the `>` of its end tag is in the token specification `TokOk` and the correspondence.) -/
+theorem parsed_ranges_valid (txt : Bytes) (hv : ValidUtf8 txt) (opt : Opt) (d : Doc)
+    (h : parse Generated.tables txt opt = .ok d) : rangesValidB txt d = true := by
   have hs := Rox.Lemmas.parse_docSpans Generated.tables C01.generated_tables_ok txt hv opt d h
-  exact ⟨fun i n hn => (hs.nodes i n hn).2, fun k a ha => (hs.attrs k a ha).2.2⟩
+  have ho := Rox.Lemmas.parse_rangesOrdered Generated.tables C01.generated_tables_ok txt hv opt d h
+  rw [rangesValidB_iff]
+  constructor
+  · intro i hi
+    have hn : d.nodes[i]? = some d.nodes[i] := by simp [hi]
+    have e := (hs.nodes i _ hn).2
+    exact ⟨ho.1 i _ hn, e.2.1, e.2.2.1, e.2.2.2⟩
+  · intro i hi
+    have hn : d.attrs[i]? = some d.attrs[i] := by simp [hi]
+    have e := (hs.attrs i _ hn).2.2
+    exact ⟨ho.2 i _ hn, e.2.1, e.2.2.1, e.2.2.2⟩
 
 end Rox.Props.C13
